@@ -63,6 +63,11 @@ def cases(tier, seed):
     for keep in ("g[12]_*", "g[01]_*", "g[23]_*", "g[02]_*", "g0_*"):
         out.append({"kind": "orders", "ngroups": ngroups, "op": "remove", "dargs": ["--keep-name", keep]})
     out.append({"kind": "orders", "ngroups": ngroups, "op": "link", "dargs": ["--keep-name", "g[12]_*"]})
+    # several worker threads on a group whose droppable paths are hard links of ONE file: the real run still performs
+    # every operation the dry run names (one worker is suspended after each of its steps while the others run)
+    for op in ("remove", "link", "softlink", "move"):
+        for j in range(4):
+            out.append({"kind": "parallel_links", "op": op, "hold_step": j})
     # the script written with -o FILE: the same script as on standard output; when FILE cannot take it (size limit,
     # full device) the command must say so - a script that silently misses operations is not what a real run does
     for op in ("remove", "link", "softlink", "move"):
@@ -197,7 +202,45 @@ def evaluate_output(case):
             "sample": {"op": case["op"], "groups": n, "how": case["how"], "rc": rc}}
 
 
+def evaluate_parallel_links(case):
+    viol = []
+    feat = {"op": case["op"], "report_format": "default", "kind": "ops_differ", "worker_threads": 4, "hard_links_in_dropped_subgroup": True}
+    with C.Scratch() as sc:
+        tree = [{"p": "r/a/keep", "k": "file", "c": ["base", 900, 1]}, {"p": "r/b/dup", "k": "file", "c": ["base", 900, 1]}] + \
+               [{"p": "r/b/h%d" % i, "k": "hard", "to": "r/b/dup"} for i in range(1, 5)] + \
+               [{"p": "r/c/g1", "k": "file", "c": ["base", 500, 2]}, {"p": "r/c/g2", "k": "file", "c": ["base", 500, 2]}]
+        C.make_tree(sc.tree, tree)
+        report = D.make_report(sc, [], ["r"])
+        target = os.path.join(sc.root, "moved")
+        dry = D.run_dedupe(sc, case["op"], [], report, dry_run=True, target=target)
+        if dry["rc"] != 0:
+            raise C.MachineryError("dry run failed: %s" % dry["err"][-300:])
+        sops = D.parse_script(dry["out"])
+        args = list(D.OPS[case["op"]]) + ([target] if case["op"] == "move" else [])
+        res = S.run_with_shim(sc, args, [sc.tree, target], "m", stdin=report,
+                              env_extra={"RAYON_NUM_THREADS": "4", "FCSHIM_THOLD": "/h2:%d:100:600" % case["hold_step"]})
+        rops = real_ops(res["events"], sc.tree, target)
+        norm = lambda ops: sorted((o["kind"].replace("move_rename", "move").replace("move_copy", "move"), C.u(o["file"]),
+                                   C.u(o["target"]) if o["target"] is not None else "") for o in ops)
+        so, ro = norm(sops), norm(rops)
+        ctx = "`%s` with 4 workers on a group whose dropped sub-group is one file with five names (worker of h2 suspended after its step %d)" % (
+            case["op"], case["hold_step"])
+        if res["rc"] != 0 or "panicked" in res["err"]:
+            viol.append(dict(feat, kind="real_run_failed", detail="%s: %s" % (ctx, res["err"][-300:])))
+        if so != ro:
+            viol.append(dict(feat, detail="%s: only in script %s; only in real run %s; warnings: %s" % (
+                ctx, [x for x in so if x not in ro][:3], [x for x in ro if x not in so][:3], D.warnings(res["err"])[:2])))
+        s1, s2 = D.parse_summary(dry["err"]), D.parse_summary(res["err"])
+        if s1 != s2:
+            viol.append(dict(feat, kind="summary_differs", detail="%s: dry run %s, real run %s; warnings %s" % (ctx, s1, s2, D.warnings(res["err"])[:2])))
+    return {"violations": viol, "nontrivial": ["parallel_links", case["op"], case["hold_step"]] if sops else None,
+            "outcome": "script_with_ops" if sops else "empty_script", "evaluations": 2,
+            "sample": {"parallel_links": case["op"], "ops": len(sops)}}
+
+
 def evaluate(case):
+    if case["kind"] == "parallel_links":
+        return evaluate_parallel_links(case)
     if case["kind"] == "orders":
         return evaluate_orders(case)
     if case["kind"] == "output":
